@@ -4,6 +4,7 @@ import (
 	"fmt"
 	"go/token"
 	"go/types"
+	"os"
 	"strings"
 
 	"golang.org/x/tools/go/ssa"
@@ -222,4 +223,134 @@ func floatCountDivs(fn *ssa.Function) []*ssa.BinOp {
 		}
 	})
 	return out
+}
+
+// groupGuardRule: the contract of svg.(*pathParser).hasSetsOrMore, which every indexed read of the argument list in
+// addSeg rests on: it returns true only when the list holds at least one group of sz numbers and only whole groups.
+func groupGuardRule(c *core.Check, r *core.Rule) {
+	p := c.Prog
+	fn := p.Method("svg", "pathParser", "hasSetsOrMore")
+	if fn == nil || len(fn.Params) < 2 {
+		r.Anchor("svg.(*pathParser).hasSetsOrMore")
+		return
+	}
+	sz := fn.Params[1]
+	isLen := func(v ssa.Value) bool {
+		call, ok := v.(*ssa.Call)
+		if !ok {
+			return false
+		}
+		b, isB := call.Call.Value.(*ssa.Builtin)
+		if !isB || b.Name() != "len" {
+			return false
+		}
+		ld, ok := call.Call.Args[0].(*ssa.UnOp)
+		if !ok {
+			return false
+		}
+		fa, ok := ld.X.(*ssa.FieldAddr)
+		return ok && core.FieldName(fa) == "points" && fa.X == ssa.Value(fn.Params[0])
+	}
+	val := func(v ssa.Value, ln, s int64) (int64, bool) {
+		switch {
+		case isLen(v):
+			return ln, true
+		case v == ssa.Value(sz):
+			return s, true
+		}
+		if k, ok := core.ConstInt(v); ok {
+			return k, true
+		}
+		if b, ok := v.(*ssa.BinOp); ok && b.Op == token.REM && isLen(b.X) && b.Y == ssa.Value(sz) && s != 0 {
+			return ln % s, true
+		}
+		return 0, false
+	}
+	// returns of true
+	var trueBlocks []*ssa.BasicBlock
+	core.Instrs(fn, func(in ssa.Instruction) {
+		if ret, ok := in.(*ssa.Return); ok && len(ret.Results) == 1 {
+			if k, isK := ret.Results[0].(*ssa.Const); !isK || k.Value == nil || k.Value.String() != "false" {
+				trueBlocks = append(trueBlocks, ret.Block())
+			}
+		}
+	})
+	// scenarios: (len, sz) pairs that must be refused
+	for _, sc := range []struct {
+		name    string
+		ln, s   int64
+		comment string
+	}{
+		{"no number at all", 0, 2, "a command letter without arguments"},
+		{"fewer numbers than one group", 3, 4, "an incomplete first group"},
+		{"a trailing incomplete group", 6, 4, "one group and a half"},
+	} {
+		assign := map[ssa.Value]bool{}
+		decided := 0
+		for _, a := range core.CondAtoms(fn) {
+			b, ok := a.(*ssa.BinOp)
+			if !ok {
+				continue
+			}
+			x, ok1 := val(b.X, sc.ln, sc.s)
+			y, ok2 := val(b.Y, sc.ln, sc.s)
+			if !ok1 || !ok2 {
+				continue
+			}
+			decided++
+			assign[a] = cmpIntsTok(b.Op, x, y)
+		}
+		reach := core.ForwardReach(fn.Blocks[0], assign, nil)
+		accepted := false
+		for _, tb := range trueBlocks {
+			if reach[tb] {
+				accepted = true
+			}
+		}
+		r.Cond(!accepted && len(trueBlocks) > 0, "svg.(*pathParser).hasSetsOrMore | refuses "+sc.name, p.Pos(fn.Pos()), fmt.Sprintf("len=%d, sz=%d: no return of true is reachable (%d tests decided)", sc.ln, sc.s, decided), fmt.Sprintf("with %d numbers and groups of %d (%s) the guard can return true: addSeg then indexes the argument list beyond its end", sc.ln, sc.s, sc.comment))
+	}
+}
+
+func cmpIntsTok(op token.Token, a, b int64) bool {
+	switch op {
+	case token.EQL:
+		return a == b
+	case token.NEQ:
+		return a != b
+	case token.LSS:
+		return a < b
+	case token.LEQ:
+		return a <= b
+	case token.GTR:
+		return a > b
+	case token.GEQ:
+		return a >= b
+	}
+	return false
+}
+
+// sideCondRule registers one obligation per boolean chain that tests several kinds of box edges: each kind with the
+// same sides.
+func sideCondRule(c *core.Check, r *core.Rule, pkg string, files map[string]bool, floor int) {
+	p := c.Prog
+	conds := p.SideConds(pkg, func(f string) bool { return files == nil || files[f] })
+	seen := map[string]int{}
+	for _, ss := range conds {
+		txt := ss.Text
+		if len(txt) > 110 {
+			txt = txt[:110] + "…"
+		}
+		key := pkg + "." + ss.Func + " | " + txt
+		seen[key]++
+		if seen[key] > 1 {
+			key = fmt.Sprintf("%s #%d", key, seen[key])
+		}
+		if os.Getenv("WRVERIF_DEBUG_SIDECOND") != "" {
+			fmt.Fprintln(os.Stderr, "sidecond:", p.Pos(ss.Expr.Pos()), ss.Consistent, ss.Kinds, "|", txt)
+		}
+		r.Cond(ss.Consistent, key, p.Pos(ss.Expr.Pos()), ss.Kinds, "the condition tests different sides of different box edges ("+ss.Kinds+"): the padding and the border that separate two margins are those of the same side")
+	}
+	if len(conds) < floor*2/3 {
+		r.Unknown("box-edge conditions in "+pkg, "-", fmt.Sprintf("%d conditions found, %d on the tree this rule was written for", len(conds), floor))
+	}
 }
